@@ -16,15 +16,18 @@ callers (`Um.ReplEpoch`).
   reader can see between them.
 * `C05_repl_step` — per atomic step, in every state, whatever the flags: the installed epoch only
   decreases by a forced caller; `OK` ⇔ install, and then `force ∨ epoch > installed` held at that moment.
-* `C05_repl_partial`, `C05_repl_max` — every interleaving of any number of **non-forced** callers
-  started from a healthy state: at quiescence the installed epoch is the maximum of the previous one
-  and the epochs of all callers that passed the host check; every `OLD_EPOCH` caller's epoch is
-  covered by it; `NOT_MY_META` ⇔ a foreign host; the state is healthy again.
+* `C05_repl`, `C05_repl_max` — every interleaving of any number of callers, **forced ones included**,
+  started from a healthy state: `NOT_MY_META` ⇔ a foreign host; every `OLD_EPOCH` is answered to a
+  non-forced caller whose epoch is, at that moment, ≤ the installed epoch or ≤ the epoch of a caller
+  past its store step; at quiescence the state is healthy again (`updating_epoch ≤ installed`), so the
+  next message is handled exactly (`C05_repl_seq`).  Along executions without forced callers the
+  installed epoch never decreases and at quiescence it is the maximum of the previous one and the
+  epochs of all callers that passed the host check.
 * `C05_repl_seq` — sequential delivery (any flags) from a healthy state is exact.
 * `C05_repl_pair` — the installed epoch and the installed roles always come from one caller, and
   for a message that lists no node in both roles the roles are a function of that message alone.
-* `C05_repl_full_false` — the unrestricted statement (forced callers racing with others) is false
-  of the code: witness schedule (finding F05a).
+* `C05_repl_f05a_regression` — the schedule that exhibited finding F05a before fix be85753 (a forced
+  caller racing with another one left `updating_epoch` above the installed epoch) now ends healthy.
 -/
 namespace Um.C05
 open Um Um.ProxyMeta Um.ReplEpoch
@@ -206,43 +209,75 @@ theorem C05_repl_step (announce : Bytes) (s s' : Sys) (i : Nat) (h : Step announ
       · exact ⟨by omega, by rw [him']; exact h2⟩
       · exact absurd h1 hpc
 
-/-- **C05 (replication metadata), all interleavings of any number of non-forced callers**
-(`_partial`: forced callers are excluded, see `C05_repl_full_false`).  Start in any healthy state
-`s0` (all earlier callers returned, `updating_epoch ≤ installed`), let any number of callers enter at
-any time and interleave their atomic steps arbitrarily (`Run`), all of them non-forced.  Then at
-every moment: the installed epoch has not decreased; every caller that answered `OK` has
-`epoch ≤ installed`; every caller that answered `OLD_EPOCH` has an epoch covered by the installed
-epoch or by a caller past its store step; `NOT_MY_META` ⇔ foreign host.  And at quiescence: every
-caller that passed the host check — accepted or refused — has `epoch ≤ installed`; the installed
-epoch is the old one or the epoch of a caller that answered `OK`; the state is healthy again. -/
-theorem C05_repl_partial (announce : Bytes) (s0 s : Sys) (ls : List Label) (h0 : Healthy s0)
-    (hrun : Run announce s0 ls s) (hnf : NF s0.callers.length s) :
-    s0.instEpoch ≤ s.instEpoch ∧
+/-- **C05 (replication metadata), all interleavings of any number of callers, whatever their flags.**
+Start in any healthy state `s0` (all earlier callers returned, `updating_epoch ≤ installed`), let any
+number of callers enter at any time and interleave their atomic steps arbitrarily (`Run`).  Then:
+
+1. for every caller of the execution, `NOT_MY_META` ⇔ foreign host;
+2. `updating_epoch` is always ≤ the installed epoch or ≤ the epoch of a caller past its store step;
+   whenever a further step answers `OLD_EPOCH`, that caller is non-forced and its epoch is, in the
+   state it is answered in, ≤ the installed epoch or ≤ the epoch of a caller past its store step;
+3. at quiescence the state is healthy again — so by `C05_repl_seq` a message delivered next is applied
+   iff hosts match ∧ (forced ∨ epoch > installed);
+4. if no caller of the execution is forced: the installed epoch has not decreased; `OK` ⇒
+   `epoch ≤ installed`; `OLD_EPOCH` ⇒ the epoch stays covered; and at quiescence every caller that
+   passed the host check — accepted or refused — has `epoch ≤ installed`, and the installed epoch is the
+   old one or the epoch of a caller that answered `OK`.
+(Per-step clauses for all flags — the installed epoch decreases only by a forced caller, `OK` ⇔
+install with `force ∨ epoch > installed` — are `C05_repl_step`.) -/
+theorem C05_repl (announce : Bytes) (s0 s : Sys) (ls : List Label) (h0 : Healthy s0)
+    (hrun : Run announce s0 ls s) :
     (∀ (j : Nat) (c : Caller), s.callers[j]? = some c → s0.callers.length ≤ j →
-      (c.pc = .done .notMyMeta ↔ hostsOk announce c.msg = false) ∧
-      (c.pc = .done .ok → c.msg.epoch ≤ s.instEpoch) ∧
-      (c.pc = .done .oldEpoch → Covered s c.msg.epoch)) ∧
-    (Quiescent s →
+      (c.pc = .done .notMyMeta ↔ hostsOk announce c.msg = false)) ∧
+    Covered s s.updating ∧
+    (∀ (i : Nat) (s' : Sys) (c c' : Caller), Step announce s (.run i) s' → s.callers[i]? = some c →
+      s'.callers[i]? = some c' → c'.pc = .done .oldEpoch →
+      c.msg.force = false ∧ Covered s c.msg.epoch) ∧
+    (Quiescent s → Healthy s) ∧
+    (NF s0.callers.length s →
+      s0.instEpoch ≤ s.instEpoch ∧
       (∀ (j : Nat) (c : Caller), s.callers[j]? = some c → s0.callers.length ≤ j →
-        hostsOk announce c.msg = true → c.msg.epoch ≤ s.instEpoch) ∧
-      (s.instEpoch = s0.instEpoch ∨
-        ∃ (j : Nat) (c : Caller), s.callers[j]? = some c ∧ s0.callers.length ≤ j ∧ c.pc = .done .ok ∧
-          c.msg.epoch = s.instEpoch) ∧
-      Healthy s) := by
-  have inv := epInv_run h0.1 h0.2 hrun hnf
-  refine ⟨inv.ge, ?_, ?_⟩
-  · intro j c hj hge
-    exact ⟨inv.nmm j c hj hge, inv.okLe j c hj hge, inv.oldCov j c hj hge⟩
+        (c.pc = .done .ok → c.msg.epoch ≤ s.instEpoch) ∧
+        (c.pc = .done .oldEpoch → Covered s c.msg.epoch)) ∧
+      (Quiescent s →
+        (∀ (j : Nat) (c : Caller), s.callers[j]? = some c → s0.callers.length ≤ j →
+          hostsOk announce c.msg = true → c.msg.epoch ≤ s.instEpoch) ∧
+        (s.instEpoch = s0.instEpoch ∨
+          ∃ (j : Nat) (c : Caller), s.callers[j]? = some c ∧ s0.callers.length ≤ j ∧ c.pc = .done .ok ∧
+            c.msg.epoch = s.instEpoch))) := by
+  have all := allInv_run h0.1 h0.2 hrun
+  refine ⟨all.nmm, all.upd, ?_, ?_, ?_⟩
+  · intro i s' c c' hstep hc hc' hpc
+    rcases step_pool hstep with ⟨m, hl, _⟩ | ⟨i', ci, ci', u', ie', im', hl, hci, hu', hie', him', ha, _, hp⟩
+    · cases hl
+    · cases hl
+      rw [hci] at hc; cases hc
+      have : s'.callers[i]? = some ci' := by rw [hp i]; simp
+      rw [this] at hc'; cases hc'
+      cases ha with
+      | loadRej hpc' hf hle => exact ⟨hf, covered_le all.upd hle⟩
+      | loadPass hpc' hle => simp at hpc
+      | store hpc' => simp at hpc
+      | read hpc' => simp at hpc
+      | lockRej hpc' hf hle => exact ⟨hf, Or.inl hle⟩
+      | install hpc' hle => simp at hpc
   · intro hq
-    refine ⟨?_, inv.src, hq, covered_quiescent hq inv.upd⟩
-    intro j c hj hge hh
-    obtain ⟨r, hr⟩ := hq j c hj
-    cases r with
-    | ok => exact inv.okLe j c hj hge hr
-    | oldEpoch => exact covered_quiescent hq (inv.oldCov j c hj hge hr)
-    | notMyMeta =>
-      have := (inv.nmm j c hj hge).mp hr
-      rw [hh] at this; cases this
+    exact ⟨hq, covered_quiescent hq all.upd⟩
+  · intro hnf
+    have inv := epInv_run h0.1 h0.2 hrun hnf
+    refine ⟨inv.ge, ?_, ?_⟩
+    · intro j c hj hge
+      exact ⟨inv.okLe j c hj hge, inv.oldCov j c hj hge⟩
+    · intro hq
+      refine ⟨?_, inv.src⟩
+      intro j c hj hge hh
+      obtain ⟨r, hr⟩ := hq j c hj
+      cases r with
+      | ok => exact inv.okLe j c hj hge hr
+      | oldEpoch => exact covered_quiescent hq (inv.oldCov j c hj hge hr)
+      | notMyMeta =>
+        have := (inv.nmm j c hj hge).mp hr
+        rw [hh] at this; cases this
 
 /-- **final installed = max accepted = max delivered**: at quiescence of a non-forced episode the
 installed epoch is the maximum of the previously installed epoch and the epochs of *all* callers of
@@ -252,8 +287,9 @@ theorem C05_repl_max (announce : Bytes) (s0 s : Sys) (ls : List Label) (h0 : Hea
     s.instEpoch =
       (((s.callers.drop s0.callers.length).filter (fun c => hostsOk announce c.msg)).map (·.msg.epoch)).foldl
         max s0.instEpoch := by
-  obtain ⟨hge, hall, hfin⟩ := C05_repl_partial announce s0 s ls h0 hrun hnf
-  obtain ⟨hle, hsrc, _⟩ := hfin hq
+  obtain ⟨hnmm, _, _, _, hnoforce⟩ := C05_repl announce s0 s ls h0 hrun
+  obtain ⟨hge, _, hfin⟩ := hnoforce hnf
+  obtain ⟨hle, hsrc⟩ := hfin hq
   apply Nat.le_antisymm
   · rcases hsrc with h | ⟨j, c, hj, hjge, hpc, he⟩
     · rw [h]; exact foldl_max_ge_init _ _
@@ -267,7 +303,7 @@ theorem C05_repl_max (announce : Bytes) (s0 s : Sys) (ls : List Label) (h0 : Hea
         have : s0.callers.length + (j - s0.callers.length) = j := by omega
         rw [this]; exact hj
       · cases hh : hostsOk announce c.msg
-        · have := ((hall j c hj hjge).1).mpr hh
+        · have := (hnmm j c hj hjge).mpr hh
           rw [hpc] at this; cases this
         · rfl
   · apply foldl_max_le _ _ _ hge
@@ -337,7 +373,7 @@ theorem C05_repl_pair (announce : Bytes) (s0 s : Sys) (ls : List Label)
     rw [h2]
     exact buildMap_canon c.msg c.reused (inv.sound j c hj (Or.inr hpc)) hd k
 
-/-! ### the unrestricted statement is false of the code (finding F05a) -/
+/-! ### regression: the schedule of finding F05a (fixed in be85753) -/
 
 /-- announce host `1`, node address `1:1` -/
 def wHost : Bytes := [49]
@@ -349,30 +385,24 @@ def wC : RMsg := ⟨5, false, [wEntry 67], []⟩
 /-- non-forced, epoch 4, delivered afterwards with nothing else in flight -/
 def wD : RMsg := ⟨4, false, [wEntry 68], []⟩
 /-- B enters, loads, stores 3; C enters, loads (3 < 5), stores 5, reads, installs 5; B reads and
-installs 3 (forced).  `updating_epoch` is left at 5 above the installed epoch 3. -/
+installs 3 (forced).  Before the fix `updating_epoch` stayed at 5 above the installed epoch 3 and the
+next message with epoch 4 was refused; now the forced install also stores 3 into `updating_epoch`. -/
 def wSchedule : List Label :=
   [.spawn wB, .run 0, .run 0, .spawn wC, .run 1, .run 1, .run 1, .run 1, .run 0, .run 0]
 
-/-- **C05 for SETREPL does not hold when a forced message races with another one**: there is a
-schedule of two callers (one forced) from the initial state, after which — everything has returned,
-both callers were answered `OK`, epoch 3 is installed — a non-forced message with epoch 4 > 3 whose
-hosts match, delivered alone, is answered `OLD_EPOCH` and not applied. -/
-theorem C05_repl_full_false :
-    ∃ (ls : List Label) (s : Sys) (m : RMsg), Run wHost Sys.init ls s ∧ Quiescent s ∧
-      hostsOk wHost m = true ∧ m.force = false ∧ s.instEpoch < m.epoch ∧
-      replyOf (call wHost s m) s.callers.length = some .oldEpoch ∧
-      (call wHost s m).instEpoch = s.instEpoch ∧ ¬ Healthy s := by
-  have hrep : ∃ s, replay wHost Sys.init wSchedule = some s ∧ s.updating = 5 ∧ s.instEpoch = 3 ∧
+/-- **the F05a schedule ends healthy**: both callers were answered `OK`, epoch 3 is installed with
+`updating_epoch = 3`, and the non-forced message with epoch 4 > 3 delivered next is applied. -/
+theorem C05_repl_f05a_regression :
+    ∃ s : Sys, Run wHost Sys.init wSchedule s ∧ Healthy s ∧ s.instEpoch = 3 ∧ s.updating = 3 ∧
+      replyOf (call wHost s wD) s.callers.length = some .ok ∧ (call wHost s wD).instEpoch = 4 := by
+  have hrep : ∃ s, replay wHost Sys.init wSchedule = some s ∧ s.updating = 3 ∧ s.instEpoch = 3 ∧
       (∀ c ∈ s.callers, c.pc = .done .ok) ∧
-      replyOf (call wHost s wD) s.callers.length = some .oldEpoch ∧ (call wHost s wD).instEpoch = 3 := by
+      replyOf (call wHost s wD) s.callers.length = some .ok ∧ (call wHost s wD).instEpoch = 4 := by
     refine ⟨_, rfl, ?_⟩
     decide
   obtain ⟨s, hs, hu, hie, hdone, hreply, hinst⟩ := hrep
-  refine ⟨wSchedule, s, wD, replay_run hs, ?_, by decide, rfl, by rw [hie]; decide, hreply, by rw [hinst, hie], ?_⟩
-  · intro j c hj
-    exact ⟨_, hdone c (List.mem_of_getElem? hj)⟩
-  · intro h
-    have := h.2
-    omega
+  refine ⟨s, replay_run hs, ⟨?_, by omega⟩, hie, hu, hreply, hinst⟩
+  intro j c hj
+  exact ⟨_, hdone c (List.mem_of_getElem? hj)⟩
 
 end Um.C05
